@@ -154,6 +154,47 @@ def hist_src(h):
     return f'({kind!r}, {ksrc}, {list(ops)!r})'
 
 
+DEEP_CODE = r"""
+import sys, collections
+from collections import OrderedDict, defaultdict, deque
+import functools
+import optree
+from ocv.bounded import scope as S
+S.ensure_registered()
+sys.setrecursionlimit(100000)
+__TREE_DIFF__
+MAKERS = [lambda x: [x], lambda x: {'k': x, 'a': None}, lambda x: (x,), lambda x: OrderedDict(z=x), lambda x: deque([x], maxlen=5),
+          lambda x: S.Single(x), lambda x: S.CustomE([x], 'deep'), lambda x: defaultdict(list, {2: x})]
+bad = []
+for depth in (optree.MAX_RECURSION_DEPTH - 1, optree.MAX_RECURSION_DEPTH):
+    for start in range(len(MAKERS)):
+        leaf = S.L(0)
+        t = leaf
+        for i in range(depth):
+            t = MAKERS[(start + i) % len(MAKERS)](t)
+        for nil in (False, True):
+            leaves, spec = optree.tree_flatten(t, none_is_leaf=nil)
+            back = optree.tree_unflatten(spec, leaves)
+            d = tree_diff(t, back)
+            l2, s2 = optree.tree_flatten(back, none_is_leaf=nil)
+            if d or s2 != spec or len(l2) != len(leaves) or any(a is not b for a, b in zip(l2, leaves)):
+                bad.append((depth, start, nil, d))
+print('RESULT', len(bad), bad[:5])
+sys.exit(1 if bad else 0)
+"""
+
+
+def deep_part(col):
+    """Round trip at the deepest admissible nesting (child process: deep recursion)."""
+    code = DEEP_CODE.replace('__TREE_DIFF__', U.SRC(tree_diff))
+    rc, out, err = U.run_child(code, timeout=600)
+    col.tick(32)
+    col.nontrivial('deep chains')
+    if rc != 0:
+        col.finding('C01.deep_roundtrip', f'chains of depth MAX_RECURSION_DEPTH-1 / MAX_RECURSION_DEPTH over 8 container kinds: child exit '
+                    f'{rc}: {(out + err)[-400:]}', code, {'returncode': rc})
+
+
 def run(tier: str, seed: int):
     col = U.Collector('C01 bounded: exact structural round trip flatten/unflatten')
     src = fn_src()
@@ -194,6 +235,7 @@ def run(tier: str, seed: int):
                 col.nontrivial((hist_src(h), U.opt_repr(o)))
         if nh % 9001 == 5:
             col.sample(f'{hist_src(h)} -> {apply_history(*h)!r}')
+    deep_part(col)
     return col.done(
         rule='non-trivial = tree with at least one internal node, or a history containing an operation other than '
              'first insertions/appends; counted per distinct (input description, options)',
@@ -201,7 +243,7 @@ def run(tier: str, seed: int):
               f'is_leaf_dictlike] x dict-order mode in sorted/insertion (trees holding a dict/defaultdict); {nh} construction '
               f'histories of one-level dict/OrderedDict/defaultdict (set/del/popitem/move_to_end/auto-insertion over 3 keys '
               f'of several pools) and deque(maxlen in 2,3,None: append/appendleft/rotate/pop/popleft) x none_is_leaf x '
-              f"namespace in ['', NS] x mode",
+              f"namespace in ['', NS] x mode; 32 chains nested MAX_RECURSION_DEPTH-1 / MAX_RECURSION_DEPTH deep (child process)",
         exhaustive=False,
         notes='behaviour of user unflatten functions is assumed (they rebuild what they are given); trees holding an '
               'optree.functools.partial are not evaluated under is_leaf_dictlike: that predicate makes the partial\'s '
